@@ -329,3 +329,453 @@ Example c12_example_extension :
   mpls_member_get_label [0x12; 0x34; 0x56; 0x78] = Ok 0x12345 /\ extensions_new [1; 2; 3] = Err EPacket /\
   mpls_stack_new_view buf = Ok buf.
 Proof. vm_compute. repeat split. Qed.
+
+(* ============================================================================================== *)
+(* PAYLOAD ACCESSORS: set_payload of the thirteen packet types that have one                        *)
+(* Model: TV.Packet.Payload (one definition per Rust set_payload, offset expressions as written;     *)
+(*        Ipv6Packet::set_payload = the RELEASE build, its debug_assert modelled apart).             *)
+(* Spec : splice off p buf (Proofs/FieldsProofs.v) = buf with the octets off .. off+|p|-1 replaced   *)
+(*        by p;  payload_setter_ok min off setp (Proofs/PayloadProofs.v) = for every byte buffer of  *)
+(*        at least min octets: min <= off buf, a payload that fits is spliced in at off buf, one     *)
+(*        that does not fit is the fault OutOfBounds (the Rust slice index panics).                  *)
+(*        The offsets are given with the RFC bit-slice reader rfc_get, not with the code's getters.  *)
+(* Read side: payload() / payload_raw() / get_options_raw() of TV.Packet.Views and TV.Packet.IcmpExt *)
+(*        (the models harness mode c04pkt runs against the code).                                    *)
+(* ============================================================================================== *)
+From TV Require Import Packet.Payload Packet.ByteOps Packet.IcmpExt Packet.Views Proofs.PayloadProofs.
+
+(* ---------------------------------------------------------------------------------------------- *)
+(* generic laws of the specification, for all offsets, payloads and buffers                         *)
+
+(* writing a payload that fits keeps the length, keeps the octets before the offset, puts the payload at
+   the offset and keeps the octets after it; a buffer of bytes stays a buffer of bytes *)
+Theorem c12_payload_splice : forall off p buf, (off + length p <= length buf)%nat ->
+  length (splice off p buf) = length buf /\
+  firstn off (splice off p buf) = firstn off buf /\
+  firstn (length p) (skipn off (splice off p buf)) = p /\
+  skipn (off + length p) (splice off p buf) = skipn (off + length p) buf /\
+  (bytes buf -> bytes p -> bytes (splice off p buf)).
+Proof.
+  intros off p buf H. split; [apply length_splice'; assumption|]. split; [apply splice_head; assumption|].
+  split; [apply splice_body; assumption|]. split; [apply splice_tail; assumption|].
+  intros Hb Hp. apply bytes_splice; assumption.
+Qed.
+
+(* the same bit by bit: every bit before bit 8*off and from bit 8*(off+|p|) on is untouched, so every RFC
+   slice that ends inside the header reads the same; the payload bits, in network order, are the payload *)
+Theorem c12_payload_splice_bits : forall off p buf, (off + length p <= length buf)%nat ->
+  (forall i, (i < 8 * off \/ 8 * (off + length p) <= i)%nat ->
+     nth i (bits_of_bytes (splice off p buf)) false = nth i (bits_of_bytes buf) false) /\
+  (forall o w, (o + w <= 8 * off)%nat -> rfc_get o w (splice off p buf) = rfc_get o w buf) /\
+  (bytes p -> rfc_get (8 * off) (8 * length p) (splice off p buf) = be_val p).
+Proof.
+  intros off p buf H. split; [intros i Hi; apply splice_frame_bit; assumption|].
+  split; [intros o w Ho; apply splice_frame_slice; assumption|].
+  intros Hp. apply splice_payload_bits; assumption.
+Qed.
+
+(* writing the same payload twice is writing it once, a second payload of the same length replaces the
+   first, writing back the octets that are there (and writing the empty payload) changes nothing *)
+Theorem c12_payload_splice_overwrite : forall off p q buf, (off + length p <= length buf)%nat ->
+  splice off p (splice off p buf) = splice off p buf /\
+  (length q = length p -> splice off q (splice off p buf) = splice off q buf) /\
+  splice off (firstn (length p) (skipn off buf)) buf = buf /\
+  splice off [] buf = buf.
+Proof.
+  intros off p q buf H. split; [apply splice_idem; assumption|].
+  split; [intros Hq; apply splice_same; [symmetry|]; assumption|].
+  split; [apply splice_id; assumption|apply splice_nil].
+Qed.
+
+(* ---------------------------------------------------------------------------------------------- *)
+(* consequences for any set_payload that implements the specification (every row of the tables below) *)
+
+(* a payload that fits: the call succeeds, the buffer keeps its length, equals the input outside
+   [off, off+|p|) octet by octet and bit by bit, carries the payload there, and every RFC slice that lies
+   in the header (options included) reads the same *)
+Theorem c12_set_payload_fits : forall min off setp, payload_setter_ok min off setp ->
+  forall buf p, bytes buf -> (min <= length buf)%nat -> (off buf + length p <= length buf)%nat ->
+  exists buf', setp buf p = Ok buf' /\ length buf' = length buf /\ (bytes p -> bytes buf') /\
+    firstn (off buf) buf' = firstn (off buf) buf /\
+    firstn (length p) (skipn (off buf) buf') = p /\
+    skipn (off buf + length p) buf' = skipn (off buf + length p) buf /\
+    (forall i, (i < off buf \/ off buf + length p <= i)%nat -> nth_error buf' i = nth_error buf i) /\
+    (forall j, (j < length p)%nat -> nth_error buf' (off buf + j) = nth_error p j) /\
+    (forall o w, (o + w <= 8 * off buf)%nat -> rfc_get o w buf' = rfc_get o w buf) /\
+    (forall i, (i < 8 * off buf \/ 8 * (off buf + length p) <= i)%nat ->
+               nth i (bits_of_bytes buf') false = nth i (bits_of_bytes buf) false).
+Proof. exact payload_setter_fits. Qed.
+
+(* the call succeeds exactly when the payload fits behind the offset and panics (index out of range)
+   exactly when it does not; it never returns an error value and never faults in another way *)
+Theorem c12_set_payload_total : forall min off setp, payload_setter_ok min off setp ->
+  forall buf p, bytes buf -> (min <= length buf)%nat ->
+    ((exists buf', setp buf p = Ok buf') <-> (off buf + length p <= length buf)%nat) /\
+    (setp buf p = Fault OutOfBounds <-> (length buf < off buf + length p)%nat) /\
+    (forall e, setp buf p <> Err e) /\
+    (forall f, setp buf p = Fault f -> f = OutOfBounds).
+Proof. exact payload_setter_total. Qed.
+
+(* frame against the 88 accessor pairs: the getter of ANY field proved above to implement an RFC slice of
+   the same packet type returns after set_payload what it returned before *)
+Theorem c12_set_payload_frame : forall (A : Type) min foff w (valid : A -> Prop) enc dec get set off setp,
+  field_ok min foff w valid enc dec get set -> payload_setter_ok min off setp ->
+  forall buf p buf', bytes buf -> bytes p -> (min <= length buf)%nat -> setp buf p = Ok buf' ->
+  get buf' = get buf.
+Proof. exact @payload_setter_frame. Qed.
+
+(* independence in the other direction: a header-field setter and set_payload commute (either order gives
+   the same buffer) whenever the header setter leaves the payload offset where it was - i.e. for every
+   field except the IPv4 header length and the TCP data offset *)
+Theorem c12_set_payload_commutes : forall (A : Type) min foff w (valid : A -> Prop) enc dec get set off setp,
+  field_ok min foff w valid enc dec get set -> payload_setter_ok min off setp ->
+  forall buf p a b1 b2, bytes buf -> bytes p -> (min <= length buf)%nat -> valid a ->
+  set a buf = Ok b1 -> off b1 = off buf -> setp buf p = Ok b2 ->
+  exists r, setp b1 p = Ok r /\ set a b2 = Ok r.
+Proof. exact @payload_setter_commutes. Qed.
+
+(* ---------------------------------------------------------------------------------------------- *)
+(* per packet type: set_payload writes at the RFC position                                          *)
+
+(* Ipv4Packet::set_payload writes at max(20, 4*IHL), IHL = bits 4..7 (RFC 791: the header INCLUDING the
+   options is IHL 32-bit words); Ipv6Packet::set_payload (release build) right behind the 40-octet fixed
+   header (RFC 8200) *)
+Theorem c12_set_payload_ip :
+  payload_setter_ok 20 ipv4_payload_offset ipv4_set_payload /\
+  payload_setter_ok 40 (fun _ => 40%nat) ipv6_set_payload.
+Proof. exact ip_set_payload_exact. Qed.
+
+(* UdpPacket::set_payload writes behind the 8-octet header (RFC 768); TcpPacket::set_payload at
+   max(20, 4*data offset), data offset = bits 96..99 (RFC 9293: the header INCLUDING the options) *)
+Theorem c12_set_payload_transport :
+  payload_setter_ok 8 (fun _ => 8%nat) udp_set_payload /\
+  payload_setter_ok 20 tcp_payload_offset tcp_set_payload.
+Proof. exact transport_set_payload_exact. Qed.
+
+(* the eight ICMP packet types with a payload write behind the 8-octet ICMP header (RFC 792 / RFC 4443),
+   ExtensionObjectPacket behind the 4-octet object header (RFC 4884 7.1) *)
+Theorem c12_set_payload_icmp :
+  payload_setter_ok 8 (fun _ => 8%nat) icmp4_echo_request_set_payload /\
+  payload_setter_ok 8 (fun _ => 8%nat) icmp4_echo_reply_set_payload /\
+  payload_setter_ok 8 (fun _ => 8%nat) icmp4_time_exceeded_set_payload /\
+  payload_setter_ok 8 (fun _ => 8%nat) icmp4_dest_unreachable_set_payload /\
+  payload_setter_ok 8 (fun _ => 8%nat) icmp6_echo_request_set_payload /\
+  payload_setter_ok 8 (fun _ => 8%nat) icmp6_echo_reply_set_payload /\
+  payload_setter_ok 8 (fun _ => 8%nat) icmp6_time_exceeded_set_payload /\
+  payload_setter_ok 8 (fun _ => 8%nat) icmp6_dest_unreachable_set_payload /\
+  payload_setter_ok 4 (fun _ => 4%nat) ext_object_set_payload.
+Proof. exact icmp_set_payload_exact. Qed.
+
+(* the offset said with the code's own getter: 4 * get_header_length() when that is at least 5 (every legal
+   IPv4 header), 20 for the illegal values 0..4 (saturating_sub), always within 20..60 *)
+Theorem c12_ipv4_payload_offset_rfc : forall buf, bytes buf -> (20 <= length buf)%nat ->
+  exists ihl, ipv4_get_header_length buf = Ok ihl /\ 0 <= ihl < 16 /\
+    (5 <= ihl -> ipv4_payload_offset buf = Z.to_nat (ihl * 4)) /\
+    (ihl < 5 -> ipv4_payload_offset buf = 20%nat) /\
+    Z.of_nat (ipv4_payload_offset buf) = Z.max 20 (ihl * 4).
+Proof. exact ipv4_payload_offset_rfc. Qed.
+
+(* the same for TCP: 4 * get_data_offset() when that is at least 5, 20 for the illegal values 0..4 *)
+Theorem c12_tcp_payload_offset_rfc : forall buf, bytes buf -> (20 <= length buf)%nat ->
+  exists d, tcp_get_data_offset buf = Ok d /\ 0 <= d < 16 /\
+    (5 <= d -> tcp_payload_offset buf = Z.to_nat (d * 4)) /\
+    (d < 5 -> tcp_payload_offset buf = 20%nat) /\
+    Z.of_nat (tcp_payload_offset buf) = Z.max 20 (d * 4).
+Proof. exact tcp_payload_offset_rfc. Qed.
+
+(* ---------------------------------------------------------------------------------------------- *)
+(* per packet type: every header-field getter of Packet/Fields.v (and the options) after set_payload  *)
+
+(* Ipv4Packet: length kept, the whole header INCLUDING the options is octet-identical, all 13 getters and
+   get_options_raw() return what they returned, and the payload offset of the result is the same (a second
+   set_payload lands on the first).  No assumption on the payload octets. *)
+Theorem c12_ipv4_set_payload_frame : forall buf p buf', bytes buf -> (20 <= length buf)%nat ->
+  ipv4_set_payload buf p = Ok buf' ->
+  length buf' = length buf /\ firstn (ipv4_payload_offset buf) buf' = firstn (ipv4_payload_offset buf) buf /\
+  ipv4_header_same buf' buf /\ ipv4_get_options_raw buf' = ipv4_get_options_raw buf /\
+  ipv4_payload_offset buf' = ipv4_payload_offset buf.
+Proof. exact ipv4_set_payload_frame. Qed.
+
+(* TcpPacket: the same, 10 getters and get_options_raw() *)
+Theorem c12_tcp_set_payload_frame : forall buf p buf', bytes buf -> (20 <= length buf)%nat ->
+  tcp_set_payload buf p = Ok buf' ->
+  length buf' = length buf /\ firstn (tcp_payload_offset buf) buf' = firstn (tcp_payload_offset buf) buf /\
+  tcp_header_same buf' buf /\ tcp_get_options_raw buf' = tcp_get_options_raw buf /\
+  tcp_payload_offset buf' = tcp_payload_offset buf.
+Proof. exact tcp_set_payload_frame. Qed.
+
+(* Ipv6Packet (8 getters) and UdpPacket (4 getters), for ANY list of integers as buffer and payload *)
+Theorem c12_ipv6_udp_set_payload_frame : forall buf p buf',
+  (ipv6_set_payload buf p = Ok buf' ->
+   length buf' = length buf /\ firstn 40 buf' = firstn 40 buf /\ ipv6_header_same buf' buf) /\
+  (udp_set_payload buf p = Ok buf' ->
+   length buf' = length buf /\ firstn 8 buf' = firstn 8 buf /\ udp_header_same buf' buf).
+Proof. intros buf p buf'. split; [apply ipv6_set_payload_frame|apply udp_set_payload_frame]. Qed.
+
+(* icmpv4 EchoRequest / EchoReply / TimeExceeded / DestinationUnreachable: every getter *)
+Theorem c12_icmp4_set_payload_frame : forall buf p buf',
+  (icmp4_echo_request_set_payload buf p = Ok buf' ->
+   length buf' = length buf /\ firstn 8 buf' = firstn 8 buf /\
+   icmp4_echo_request_get_icmp_type buf' = icmp4_echo_request_get_icmp_type buf /\
+   icmp4_echo_request_get_icmp_code buf' = icmp4_echo_request_get_icmp_code buf /\
+   icmp4_echo_request_get_checksum buf' = icmp4_echo_request_get_checksum buf /\
+   icmp4_echo_request_get_identifier buf' = icmp4_echo_request_get_identifier buf /\
+   icmp4_echo_request_get_sequence buf' = icmp4_echo_request_get_sequence buf) /\
+  (icmp4_echo_reply_set_payload buf p = Ok buf' ->
+   length buf' = length buf /\ firstn 8 buf' = firstn 8 buf /\
+   icmp4_echo_reply_get_icmp_type buf' = icmp4_echo_reply_get_icmp_type buf /\
+   icmp4_echo_reply_get_icmp_code buf' = icmp4_echo_reply_get_icmp_code buf /\
+   icmp4_echo_reply_get_checksum buf' = icmp4_echo_reply_get_checksum buf /\
+   icmp4_echo_reply_get_identifier buf' = icmp4_echo_reply_get_identifier buf /\
+   icmp4_echo_reply_get_sequence buf' = icmp4_echo_reply_get_sequence buf) /\
+  (icmp4_time_exceeded_set_payload buf p = Ok buf' ->
+   length buf' = length buf /\ firstn 8 buf' = firstn 8 buf /\
+   icmp4_time_exceeded_get_icmp_type buf' = icmp4_time_exceeded_get_icmp_type buf /\
+   icmp4_time_exceeded_get_icmp_code buf' = icmp4_time_exceeded_get_icmp_code buf /\
+   icmp4_time_exceeded_get_checksum buf' = icmp4_time_exceeded_get_checksum buf /\
+   icmp4_time_exceeded_get_length buf' = icmp4_time_exceeded_get_length buf) /\
+  (icmp4_dest_unreachable_set_payload buf p = Ok buf' ->
+   length buf' = length buf /\ firstn 8 buf' = firstn 8 buf /\
+   icmp4_dest_unreachable_get_icmp_type buf' = icmp4_dest_unreachable_get_icmp_type buf /\
+   icmp4_dest_unreachable_get_icmp_code buf' = icmp4_dest_unreachable_get_icmp_code buf /\
+   icmp4_dest_unreachable_get_checksum buf' = icmp4_dest_unreachable_get_checksum buf /\
+   icmp4_dest_unreachable_get_length buf' = icmp4_dest_unreachable_get_length buf /\
+   icmp4_dest_unreachable_get_next_hop_mtu buf' = icmp4_dest_unreachable_get_next_hop_mtu buf).
+Proof. exact icmp4_set_payload_frame. Qed.
+
+(* icmpv6, the same four packet types *)
+Theorem c12_icmp6_set_payload_frame : forall buf p buf',
+  (icmp6_echo_request_set_payload buf p = Ok buf' ->
+   length buf' = length buf /\ firstn 8 buf' = firstn 8 buf /\
+   icmp6_echo_request_get_icmp_type buf' = icmp6_echo_request_get_icmp_type buf /\
+   icmp6_echo_request_get_icmp_code buf' = icmp6_echo_request_get_icmp_code buf /\
+   icmp6_echo_request_get_checksum buf' = icmp6_echo_request_get_checksum buf /\
+   icmp6_echo_request_get_identifier buf' = icmp6_echo_request_get_identifier buf /\
+   icmp6_echo_request_get_sequence buf' = icmp6_echo_request_get_sequence buf) /\
+  (icmp6_echo_reply_set_payload buf p = Ok buf' ->
+   length buf' = length buf /\ firstn 8 buf' = firstn 8 buf /\
+   icmp6_echo_reply_get_icmp_type buf' = icmp6_echo_reply_get_icmp_type buf /\
+   icmp6_echo_reply_get_icmp_code buf' = icmp6_echo_reply_get_icmp_code buf /\
+   icmp6_echo_reply_get_checksum buf' = icmp6_echo_reply_get_checksum buf /\
+   icmp6_echo_reply_get_identifier buf' = icmp6_echo_reply_get_identifier buf /\
+   icmp6_echo_reply_get_sequence buf' = icmp6_echo_reply_get_sequence buf) /\
+  (icmp6_time_exceeded_set_payload buf p = Ok buf' ->
+   length buf' = length buf /\ firstn 8 buf' = firstn 8 buf /\
+   icmp6_time_exceeded_get_icmp_type buf' = icmp6_time_exceeded_get_icmp_type buf /\
+   icmp6_time_exceeded_get_icmp_code buf' = icmp6_time_exceeded_get_icmp_code buf /\
+   icmp6_time_exceeded_get_checksum buf' = icmp6_time_exceeded_get_checksum buf /\
+   icmp6_time_exceeded_get_length buf' = icmp6_time_exceeded_get_length buf) /\
+  (icmp6_dest_unreachable_set_payload buf p = Ok buf' ->
+   length buf' = length buf /\ firstn 8 buf' = firstn 8 buf /\
+   icmp6_dest_unreachable_get_icmp_type buf' = icmp6_dest_unreachable_get_icmp_type buf /\
+   icmp6_dest_unreachable_get_icmp_code buf' = icmp6_dest_unreachable_get_icmp_code buf /\
+   icmp6_dest_unreachable_get_checksum buf' = icmp6_dest_unreachable_get_checksum buf /\
+   icmp6_dest_unreachable_get_length buf' = icmp6_dest_unreachable_get_length buf /\
+   icmp6_dest_unreachable_get_next_hop_mtu buf' = icmp6_dest_unreachable_get_next_hop_mtu buf).
+Proof. exact icmp6_set_payload_frame. Qed.
+
+(* ExtensionObjectPacket: length, class_num, class_subtype *)
+Theorem c12_ext_object_set_payload_frame : forall buf p buf', ext_object_set_payload buf p = Ok buf' ->
+  length buf' = length buf /\ firstn 4 buf' = firstn 4 buf /\
+  ext_object_get_length buf' = ext_object_get_length buf /\
+  ext_object_get_class_num buf' = ext_object_get_class_num buf /\
+  ext_object_get_class_subtype buf' = ext_object_get_class_subtype buf.
+Proof. exact ext_object_set_payload_frame. Qed.
+
+(* ---------------------------------------------------------------------------------------------- *)
+(* read side: what payload() of the same packet returns after set_payload                           *)
+
+(* Ipv4Packet / TcpPacket: payload() returns the octets from the RFC offset to the END OF THE BUFFER
+   (it does not look at total_length), so after set_payload it returns exactly the payload written followed
+   by the old octets behind it *)
+Theorem c12_ipv4_tcp_payload_read_back : forall buf p buf', bytes buf -> bytes p -> (20 <= length buf)%nat ->
+  (ipv4_payload buf = Ok (skipn (ipv4_payload_offset buf) buf) /\
+   (ipv4_set_payload buf p = Ok buf' ->
+    ipv4_payload buf' = Ok (p ++ skipn (ipv4_payload_offset buf + length p) buf))) /\
+  (tcp_payload buf = Ok (skipn (tcp_payload_offset buf) buf) /\
+   (tcp_set_payload buf p = Ok buf' ->
+    tcp_payload buf' = Ok (p ++ skipn (tcp_payload_offset buf + length p) buf))).
+Proof.
+  intros buf p buf' Hb Hp Hm. split; (split; [|intros Hs]).
+  - apply ipv4_payload_spec; assumption.
+  - apply ipv4_read_back; assumption.
+  - apply tcp_payload_spec; assumption.
+  - apply tcp_read_back; assumption.
+Qed.
+
+(* UdpPacket and the four Echo packet types: payload() is `&buf[8..]`: the payload written, then the old
+   octets behind it, up to the end of the buffer (UdpPacket::payload does not look at the length field) *)
+Theorem c12_udp_echo_payload_read_back :
+  (forall buf p buf', udp_set_payload buf p = Ok buf' -> pv_udp_payload buf' = Ok (p ++ skipn (8 + length p) buf)) /\
+  Forall (fun setp : list Z -> list Z -> result (list Z) =>
+    forall buf p buf', setp buf p = Ok buf' -> echo_payload buf' = Ok (p ++ skipn (8 + length p) buf))
+  [icmp4_echo_request_set_payload; icmp4_echo_reply_set_payload;
+   icmp6_echo_request_set_payload; icmp6_echo_reply_set_payload].
+Proof. split; [exact udp_read_back|exact echo_read_back]. Qed.
+
+(* Ipv6Packet: payload() returns at most payload_length octets, so the read back is the first
+   payload_length octets of (payload written ++ old octets); the whole payload comes back iff the
+   payload-length field was set to at least its length *)
+Theorem c12_ipv6_payload_read_back : forall buf p buf' pl, (40 <= length buf)%nat ->
+  ipv6_set_payload buf p = Ok buf' -> pv_ipv6_get_payload_length buf = Ok pl ->
+  pv_ipv6_get_payload_length buf' = Ok pl /\
+  ipv6_payload buf' = Ok (firstn (Z.to_nat pl) (p ++ skipn (40 + length p) buf)) /\
+  ((length p <= Z.to_nat pl)%nat -> exists rest, ipv6_payload buf' = Ok (p ++ rest)).
+Proof.
+  intros buf p buf' pl Hm Hs Hpl. destruct (ipv6_read_back _ _ _ _ Hm Hs Hpl) as [H1 H2].
+  split; [exact H1|]. split; [exact H2|]. intros Hle. apply (ipv6_read_back_full buf p buf' pl); assumption.
+Qed.
+
+(* ExtensionObjectPacket: payload() returns the octets 4 .. length field (clamped to the buffer): the read
+   back is cut at the length field; the whole payload comes back iff length >= 4 + |payload| *)
+Theorem c12_ext_object_payload_read_back : forall buf p buf' l, (4 <= length buf)%nat ->
+  ext_object_set_payload buf p = Ok buf' -> extension_object_get_length buf = Ok l ->
+  extension_object_get_length buf' = Ok l /\
+  extension_object_payload buf' = Ok (firstn (Z.to_nat l - 4) (p ++ skipn (4 + length p) buf)) /\
+  ((4 + length p <= Z.to_nat l)%nat -> exists rest, extension_object_payload buf' = Ok (p ++ rest)).
+Proof.
+  intros buf p buf' l Hm Hs Hl. destruct (ext_object_read_back _ _ _ _ Hm Hs Hl) as [H1 H2].
+  split; [exact H1|]. split; [exact H2|]. intros Hle. apply (ext_object_read_back_full buf p buf' l); assumption.
+Qed.
+
+(* TimeExceeded / DestinationUnreachable, both families: payload_raw() returns the payload written followed
+   by the old octets; payload() returns a prefix of that, selected by the RFC 4884 splitter: all of it, or the
+   first `length field` words, or (length field 0) the first 128 octets; so a payload of at most 128 octets
+   that the length field covers (or with length field 0) is read back in full *)
+Theorem c12_icmp_error_payload_read_back : Forall (fun '(fam, setp) =>
+    forall buf p buf' l, (8 <= length buf)%nat -> setp buf p = Ok buf' -> icmp_error_get_length fam buf = Ok l ->
+    let len := Z.to_nat (l * length_unit fam) in
+    let raw := p ++ skipn (8 + length p) buf in
+    icmp_error_get_length fam buf' = Ok l /\
+    icmp_error_payload_raw buf' = Ok raw /\
+    (exists k, icmp_error_payload fam buf' = Ok (firstn k raw) /\
+               (k = length raw \/ (k = len /\ (0 < len)%nat) \/ (k = 128%nat /\ len = 0%nat))) /\
+    ((length p <= 128)%nat -> (len = 0%nat \/ length p <= len)%nat ->
+     exists rest, icmp_error_payload fam buf' = Ok (p ++ rest)))
+  [(FamV4, icmp4_time_exceeded_set_payload); (FamV4, icmp4_dest_unreachable_set_payload);
+   (FamV6, icmp6_time_exceeded_set_payload); (FamV6, icmp6_dest_unreachable_set_payload)].
+Proof. exact icmp_error_read_back_all. Qed.
+
+(* ---------------------------------------------------------------------------------------------- *)
+(* debug build, and statements that do NOT hold                                                     *)
+
+(* debug build of Ipv6Packet::set_payload (debug_assert!(vals.len() <= payload_length)): whenever it does
+   not panic it returns what the release build returns, and then payload() reads the whole payload back *)
+Theorem c12_ipv6_set_payload_debug : forall buf p buf', (40 <= length buf)%nat ->
+  ipv6_set_payload_debug buf p = Ok buf' ->
+  ipv6_set_payload buf p = Ok buf' /\ exists rest, ipv6_payload buf' = Ok (p ++ rest).
+Proof. exact ipv6_debug_read_back. Qed.
+
+(* REFUTED: "payload() returns what set_payload wrote" is false of the RELEASE build of Ipv6Packet.  On a
+   zeroed 48-octet buffer (payload_length 0) set_payload [1;2;3;4] succeeds and writes the four octets at 40,
+   payload() returns the empty slice; the debug build panics on the same call *)
+Theorem c12_ipv6_release_read_back_refuted : exists buf p buf',
+  bytes buf /\ bytes p /\ (40 <= length buf)%nat /\ p <> [] /\
+  ipv6_set_payload buf p = Ok buf' /\ skipn 40 buf' = p ++ [0; 0; 0; 0] /\
+  ipv6_payload buf' = Ok [] /\
+  ipv6_set_payload_debug buf p = Fault Unreachable.
+Proof. exact ipv6_release_read_back_refuted. Qed.
+
+(* REFUTED likewise for the ICMP error messages: with length field 1 (4 octets) and room for an extension
+   structure, an 8-octet payload is written in full (payload_raw() shows it) and payload() returns its first
+   4 octets only *)
+Theorem c12_icmp_error_read_back_refuted : exists buf p buf',
+  bytes buf /\ bytes p /\ (8 <= length buf)%nat /\
+  icmp4_time_exceeded_set_payload buf p = Ok buf' /\
+  icmp_error_payload_raw buf' = Ok (p ++ repeat 0 132) /\
+  icmp_error_payload FamV4 buf' = Ok (firstn 4 p) /\ firstn 4 p <> p.
+Proof. exact icmp_error_read_back_refuted. Qed.
+
+(* the options term of the offset is load-bearing: with data offset / IHL 6 the payload lands at 24 and the
+   option octets 20..23 keep their content; writing at 20 (the offset without the options term) gives a
+   different buffer *)
+Theorem c12_set_payload_options_term :
+  (exists buf p buf', bytes buf /\ (20 <= length buf)%nat /\ tcp_set_payload buf p = Ok buf' /\
+     tcp_payload_offset buf = 24%nat /\ firstn 4 (skipn 20 buf') = firstn 4 (skipn 20 buf) /\
+     firstn (length p) (skipn 24 buf') = p /\ copy_into 20 p buf <> Ok buf') /\
+  (exists buf p buf', bytes buf /\ (20 <= length buf)%nat /\ ipv4_set_payload buf p = Ok buf' /\
+     ipv4_payload_offset buf = 24%nat /\ firstn 4 (skipn 20 buf') = firstn 4 (skipn 20 buf) /\
+     firstn (length p) (skipn 24 buf') = p /\ copy_into 20 p buf <> Ok buf').
+Proof. exact options_term_matters. Qed.
+
+(* ---------------------------------------------------------------------------------------------- *)
+(* non-vacuity: concrete buffers with non-zero background, options present, payloads at and beyond the
+   fitting boundary                                                                               *)
+
+(* IPv4 with IHL 6 (4 option octets) in a 28-octet buffer: a 4-octet payload fits exactly at 24, a 5-octet
+   one panics; IHL 3 (illegal) writes at 20; the header getter and the options are unchanged *)
+Example c12_example_payload_ipv4 :
+  let buf := 0x46 :: repeat 0xaa 27 in
+  let buf' := 0x46 :: repeat 0xaa 23 ++ [1; 2; 3; 4] in
+  ipv4_set_payload buf [1; 2; 3; 4] = Ok buf' /\ ipv4_payload_offset buf = 24%nat /\
+  splice 24 [1; 2; 3; 4] buf = buf' /\
+  ipv4_set_payload buf [1; 2; 3; 4; 5] = Fault OutOfBounds /\
+  ipv4_payload buf' = Ok [1; 2; 3; 4] /\ ipv4_get_options_raw buf' = Ok (repeat 0xaa 4) /\
+  ipv4_get_header_length buf' = Ok 6 /\
+  ipv4_set_payload (0x43 :: repeat 0xaa 27) [9] = Ok (0x43 :: repeat 0xaa 19 ++ [9] ++ repeat 0xaa 7) /\
+  ipv4_set_payload (0x4f :: repeat 0xaa 59) [] = Ok (0x4f :: repeat 0xaa 59) /\
+  ipv4_set_payload (0x4f :: repeat 0xaa 58) [] = Fault OutOfBounds.
+Proof. vm_compute. repeat split. Qed.
+
+(* TCP with data offset 7 in a 32-octet buffer *)
+Example c12_example_payload_tcp :
+  let buf := repeat 0xbb 12 ++ [0x7b] ++ repeat 0xbb 19 in
+  let buf' := repeat 0xbb 12 ++ [0x7b] ++ repeat 0xbb 15 ++ [1; 2; 3] ++ [0xbb] in
+  tcp_set_payload buf [1; 2; 3] = Ok buf' /\ tcp_payload_offset buf = 28%nat /\
+  tcp_set_payload buf [1; 2; 3; 4; 5] = Fault OutOfBounds /\
+  tcp_payload buf' = Ok [1; 2; 3; 0xbb] /\ tcp_get_options_raw buf' = Ok (repeat 0xbb 8) /\
+  tcp_get_data_offset buf' = Ok 7 /\ tcp_get_reserved buf' = Ok 5 /\ tcp_get_urgent_pointer buf' = Ok 0xbbbb /\
+  tcp_set_payload (repeat 0xbb 12 ++ [0x2b] ++ repeat 0xbb 19) [1] =
+    Ok (repeat 0xbb 12 ++ [0x2b] ++ repeat 0xbb 7 ++ [1] ++ repeat 0xbb 11).
+Proof. vm_compute. repeat split. Qed.
+
+(* the fixed-offset types: UDP, IPv6 (payload_length 2 cuts the read back), echo, ICMP error, extension object *)
+Example c12_example_payload_fixed :
+  udp_set_payload [1; 2; 3; 4; 5; 6; 7; 8; 9; 10] [0xaa; 0xbb] = Ok [1; 2; 3; 4; 5; 6; 7; 8; 0xaa; 0xbb] /\
+  udp_set_payload [1; 2; 3; 4; 5; 6; 7; 8; 9; 10] [0xaa; 0xbb; 0xcc] = Fault OutOfBounds /\
+  udp_set_payload [1; 2; 3; 4; 5; 6; 7; 8] [] = Ok [1; 2; 3; 4; 5; 6; 7; 8] /\
+  ipv6_set_payload (0x60 :: 0 :: 0 :: 0 :: 0 :: 2 :: repeat 0x11 38) [7; 8; 9]
+    = Ok (0x60 :: 0 :: 0 :: 0 :: 0 :: 2 :: repeat 0x11 34 ++ [7; 8; 9; 0x11]) /\
+  ipv6_payload (0x60 :: 0 :: 0 :: 0 :: 0 :: 2 :: repeat 0x11 34 ++ [7; 8; 9; 0x11]) = Ok [7; 8] /\
+  ipv6_set_payload (repeat 0x11 44) [1; 2; 3; 4; 5] = Fault OutOfBounds /\
+  icmp4_echo_request_set_payload [8; 0; 0xf7; 0xff; 0x12; 0x34; 0x56; 0x78; 0xee; 0xee] [1]
+    = Ok [8; 0; 0xf7; 0xff; 0x12; 0x34; 0x56; 0x78; 1; 0xee] /\
+  icmp6_echo_reply_set_payload [129; 0; 0xf7; 0xff; 0x12; 0x34; 0x56; 0x78; 0xee] [1; 2] = Fault OutOfBounds /\
+  icmp6_dest_unreachable_set_payload [1; 0; 0; 0; 0; 0; 0; 0; 0xee; 0xee] [5; 6] = Ok [1; 0; 0; 0; 0; 0; 0; 0; 5; 6] /\
+  ext_object_set_payload [0; 8; 1; 1; 0xee; 0xee; 0xee; 0xee; 0xee] [1; 2; 3; 4] = Ok [0; 8; 1; 1; 1; 2; 3; 4; 0xee] /\
+  extension_object_payload [0; 8; 1; 1; 1; 2; 3; 4; 0xee] = Ok [1; 2; 3; 4] /\
+  ext_object_set_payload [0; 8; 1; 1; 0xee] [1; 2] = Fault OutOfBounds.
+Proof. vm_compute. repeat split. Qed.
+
+(* payload_setter_ok is inhabited beyond the model: the hypotheses of the generic theorems are met by the
+   thirteen setters, e.g. the header getter of the IPv4 protocol field after set_payload *)
+Example c12_example_payload_frame_instance : forall buf p buf', bytes buf -> bytes p -> (20 <= length buf)%nat ->
+  ipv4_set_payload buf p = Ok buf' -> ipv4_get_protocol buf' = ipv4_get_protocol buf.
+Proof.
+  intros buf p buf'. apply (payload_setter_frame 20 72 8 (fun p => 0 <= ip_protocol_id p < 256) ip_protocol_id ip_protocol_from
+    ipv4_get_protocol ipv4_set_protocol ipv4_payload_offset ipv4_set_payload).
+  - destruct c12_ipv4 as (_ & _ & _ & _ & _ & _ & _ & _ & _ & H & _). exact H.
+  - exact ipv4_set_payload_ok.
+Qed.
+
+(* the C11 packet-builder model (Net/Wire.v) writes payloads with set_payload definitions of its own; they are
+   the same functions as the ones above, so the packets C11 builds get their payload at the RFC offset *)
+Theorem c12_payload_models_agree : forall buf p,
+  Wire.ipv4_set_payload p buf = Payload.ipv4_set_payload buf p /\
+  Wire.udp_set_payload p buf = Payload.udp_set_payload buf p /\
+  Wire.echo_set_payload p buf = icmp4_echo_request_set_payload buf p /\
+  Wire.echo_set_payload p buf = icmp6_echo_request_set_payload buf p.
+Proof. exact wire_models_agree. Qed.
+
+(* what the correspondence driver runs (set_payload_of, by packet type) is the table of the thirteen setters,
+   and every entry meets the specification *)
+Theorem c12_set_payload_of_table :
+  map set_payload_of [PtIpv4; PtIpv6; PtUdp; PtTcp; PtIcmp4EchoRequest; PtIcmp4EchoReply; PtIcmp4TimeExceeded;
+                      PtIcmp4DestUnreachable; PtIcmp6EchoRequest; PtIcmp6EchoReply; PtIcmp6TimeExceeded;
+                      PtIcmp6DestUnreachable; PtExtObject] =
+  [Payload.ipv4_set_payload; ipv6_set_payload; Payload.udp_set_payload; tcp_set_payload;
+   icmp4_echo_request_set_payload; icmp4_echo_reply_set_payload; icmp4_time_exceeded_set_payload;
+   icmp4_dest_unreachable_set_payload; icmp6_echo_request_set_payload; icmp6_echo_reply_set_payload;
+   icmp6_time_exceeded_set_payload; icmp6_dest_unreachable_set_payload; ext_object_set_payload] /\
+  forall t, exists min off, payload_setter_ok min off (set_payload_of t).
+Proof. exact set_payload_of_table. Qed.
